@@ -123,6 +123,7 @@ UNRESOLVED = [
     ("vt_trapmod", "nope"), ("vt_trapmod", "GoodExc.nope"), ("vt_trapmod", "sub.nope.deeper"), ("builtins", "NoSuchError"),
     ("vt_unloaded_trap", "Boom"), ("vt_unloaded_trap", "run"), ("not.a.loaded.module", "X"), ("vt_unloaded_pkg.sub", "Boom"), ("vt_unloaded_pkg.nosuch", "X"), ("vt_unloaded_pkg", "sub.Boom"), ("json.nonexistent_submodule", "X"),
     ("vt_trapmod_lazy", "LazyExc"), ("vt_trapmod_lazy", "lazy_func"), ("vt_trapmod_lazy", "lazy_sub.run"), ("vt_trapmod_lazy", "nope"), ("vt_trapmod_lazysub", "LazyExc"), ("vt_trapmod_lazysub", "lazy_func"), ("vt_trapmod_lazysub", "computed"),
+    ("vt_trapmod", "handler.<locals>.ValidationFailed"), ("not.loaded.mod", "Page[int].NotFound"), (None, "billing-service.QuotaError"), ("vt_trapmod", "Quota Error"),
     ("vt_trapmod", ""), ("", "ValueError"), (None, "SomeRemoteError"), (None, "eval"), (None, "os.system"),
 ]
 JSONV = st.recursive(st.one_of(st.none(), st.booleans(), st.integers(-10**6, 10**6), st.text(max_size=4)),
